@@ -290,3 +290,28 @@ ADDENDA = {
     'C19': 'A leftover dimension of length one is refused like any other.',
     'C20': 'extract-points is also run with -d / --point-dimension.',
 }
+
+# round 9
+for _k, _v in {
+    'C01': ' Look-alike variables (same standard names, other dimensions) and a second mesh topology variable are present in some configurations.',
+    'C02': ' Integer-typed axes are included; in the replay every corner of every cell is looked up with real GEOS and found in a cell that touches it.',
+    'C03': ' Includes an extra dimension exactly as long as the flattened grid and a mesh whose declared edge dimension no variable uses.',
+    'C04': ' Includes integer-typed axes and mesh files whose Conventions attribute lists several conventions (detected by the library itself).',
+    'C05': ' Integer-typed axes and range-indexed tables (strided slices) are included.',
+    'C06': ' Rotated-pole look-alike axes ahead of the true 2-D coordinates are included.',
+    'C07': ' blur_mask is also given column-major and transposed arrays; meshes with a supplied face-face table and int8 tables on a 25-node mesh are included.',
+    'C08': ' A packed (int16 + scale factor) variable on the mesh keeps its values.',
+    'C09': ' Bounds variables that repeat the CF attributes of their coordinate, and a mesh node that no face uses, are included.',
+    'C10': ' Encodings include 64-bit fills beyond 32 bits and tables that count from different bases.',
+    'C11': ' A thin subclass of a built-in convention (only topology_class swapped) is registered and detected.',
+    'C12': ' Integer (also unsigned) depth coordinates are included.',
+    'C13': ' Integer depth coordinates with fractional float bounds are included.',
+    'C14': ' Integer-typed axes are included.',
+    'C15': ' Integer-typed axes, and exporting from a second Dataset object that shares the arrays of the first, are included.',
+    'C16': ' Real datasets: array-valued attributes (tenth digit, middle of 1500 elements), byte-swapped arrays keyed twice.',
+    'C17': ' Time held as a data variable with its bounds first; never-decoded variables with missing_value.',
+    'C18': ' A north-to-south latitude axis and a path with z values are in the real-geometry suite (reference geometry checked first).',
+    'C19': ' Integer-typed axes; animated values of the size of epoch seconds.',
+    'C20': ' An unsigned variable is extracted under every policy.',
+}.items():
+    ADDENDA[_k] = ADDENDA.get(_k, '') + _v
